@@ -8,6 +8,7 @@ import (
 	"os"
 	"sort"
 	"strings"
+	"time"
 
 	"golang.org/x/tools/go/ssa"
 )
@@ -19,6 +20,7 @@ type State struct {
 	pc     *Term // path condition relative to the current function entry
 	heap   *Heap
 	regs   map[ssa.Value]Value
+	visits map[*ssa.BasicBlock]int // symbolic branches taken per block on this path in the current activation
 	retval Value
 }
 
@@ -155,6 +157,12 @@ func (st *State) fork() *State {
 	for k, v := range st.regs {
 		n.regs[k] = v
 	}
+	if st.visits != nil {
+		n.visits = make(map[*ssa.BasicBlock]int, len(st.visits))
+		for k, v := range st.visits {
+			n.visits[k] = v
+		}
+	}
 	return n
 }
 
@@ -200,6 +208,8 @@ type Interp struct {
 	forkIn      map[string]bool
 	facts       map[int]bool // atoms decided by unconditional assumptions / path-wise decisions
 	callStack   []string
+	deadline    time.Time
+	maxTerms    int
 	symDepth    int   // >0 while executing one arm of a symbolic fork
 	drops       int   // number of times a path was cut or narrowed (assume, panic, unwinding, global fork)
 	decisions   []int // fork decision prefix (for global forking)
@@ -212,6 +222,20 @@ func newInterp(prog *ssa.Program) *Interp {
 	return &Interp{prog: prog, pdom: map[*ssa.Function]map[*ssa.BasicBlock]*ssa.BasicBlock{}, joins: map[*ssa.Function]map[*ssa.BasicBlock]*ssa.BasicBlock{},
 		globals: map[*ssa.Global]*Object{}, globalHeap: map[*Object]Value{}, unwind: 80,
 		funcsSeen: map[string]bool{}, inputByName: map[string]*inputRec{}, contracts: map[string]bool{}, forkFuncs: map[string]bool{}, forkIn: map[string]bool{}, facts: map[int]bool{}}
+}
+
+// checkBudget aborts a job whose symbolic execution outgrows its budget (a mutated tree can make a bounded
+// loop symbolic); the job is then reported as an engine error (inconclusive), never as a pass.
+func (in *Interp) checkBudget() {
+	if in.deadline.IsZero() {
+		return
+	}
+	if time.Now().After(in.deadline) {
+		unsupported("symbolic execution budget exceeded (time)")
+	}
+	if TS.next > in.maxTerms {
+		unsupported("symbolic execution budget exceeded (%d terms)", TS.next)
+	}
 }
 
 func (in *Interp) newObject(st *State, v Value, label string) *Object {
@@ -347,9 +371,10 @@ func (in *Interp) ipdom(fn *ssa.Function) map[*ssa.BasicBlock]*ssa.BasicBlock {
 // ---------- frames
 
 type Frame struct {
-	in      *Interp
-	fn      *ssa.Function
-	ifDepth map[*ssa.BasicBlock]int
+	in        *Interp
+	fn        *ssa.Function
+	ifDepth   map[*ssa.BasicBlock]int
+	symVisits map[*ssa.BasicBlock]int // symbolic branches taken at a block in this activation (sequential unrolling)
 }
 
 type outcome struct {
@@ -390,6 +415,17 @@ func (in *Interp) mergeStates(c *Term, a, b *State) *State {
 	}
 	if a.retval != nil || b.retval != nil {
 		r.retval = mergeValue(c, a.retval, b.retval)
+	}
+	if a.visits != nil || b.visits != nil {
+		r.visits = map[*ssa.BasicBlock]int{}
+		for k, v := range a.visits {
+			r.visits[k] = v
+		}
+		for k, v := range b.visits {
+			if v > r.visits[k] {
+				r.visits[k] = v
+			}
+		}
 	}
 	return r
 }
@@ -491,46 +527,62 @@ func (in *Interp) joinOf(fn *ssa.Function, b *ssa.BasicBlock) *ssa.BasicBlock {
 		return j
 	}
 	n := len(fn.Blocks)
-	// distances in the CFG without back edges: the target of a back edge is reached but not expanded
-	// (it belongs to the next iteration), except for back edges into b itself (b is then a loop header
-	// whose exit is where unrolled iterations re-converge).
-	bfs := func(s *ssa.BasicBlock) []int {
+	// weighted distances: a forward edge costs 1, a back edge (target dominates source) costs `cross`; the number
+	// of back edges on the cheapest path is the number of iteration boundaries crossed. A join is only accepted
+	// when both arms reach it after crossing the SAME number of iteration boundaries (otherwise states of
+	// different loop iterations would be merged); among those the nearest wins.
+	const cross = 1000000
+	const inf = 1 << 60
+	dist := func(s *ssa.BasicBlock, first int) []int {
 		d := make([]int, n)
+		done := make([]bool, n)
 		for i := range d {
-			d[i] = -1
+			d[i] = inf
 		}
-		d[s.Index] = 0
-		q := []*ssa.BasicBlock{s}
-		for len(q) > 0 {
-			x := q[0]
-			q = q[1:]
+		d[s.Index] = first
+		for {
+			u := -1
+			for i := 0; i < n; i++ {
+				if !done[i] && d[i] < inf && (u < 0 || d[i] < d[u]) {
+					u = i
+				}
+			}
+			if u < 0 {
+				break
+			}
+			done[u] = true
+			x := fn.Blocks[u]
 			for _, y := range x.Succs {
-				if d[y.Index] >= 0 {
-					continue
+				w := 1
+				if y.Dominates(x) {
+					w = cross
 				}
-				d[y.Index] = d[x.Index] + 1
-				if y != b && y.Dominates(x) {
-					continue // back edge: do not expand the header
+				if d[u]+w < d[y.Index] {
+					d[y.Index] = d[u] + w
 				}
-				q = append(q, y)
 			}
 		}
 		return d
 	}
-	dT, dF := bfs(b.Succs[0]), bfs(b.Succs[1])
+	edgeW := func(to *ssa.BasicBlock) int {
+		if to.Dominates(b) {
+			return cross
+		}
+		return 0
+	}
+	dT, dF := dist(b.Succs[0], edgeW(b.Succs[0])), dist(b.Succs[1], edgeW(b.Succs[1]))
 	var best *ssa.BasicBlock
-	bestSum, bestMax := 1<<30, 1<<30
+	bestKey := inf
 	for _, x := range fn.Blocks {
-		if x == b || dT[x.Index] < 0 || dF[x.Index] < 0 {
+		if x == b || dT[x.Index] >= inf || dF[x.Index] >= inf {
 			continue
 		}
-		sum := dT[x.Index] + dF[x.Index]
-		mx := dT[x.Index]
-		if dF[x.Index] > mx {
-			mx = dF[x.Index]
+		if dT[x.Index]/cross != dF[x.Index]/cross {
+			continue // the arms would meet in different iterations
 		}
-		if sum < bestSum || (sum == bestSum && mx < bestMax) {
-			best, bestSum, bestMax = x, sum, mx
+		key := dT[x.Index] + dF[x.Index]
+		if key < bestKey {
+			best, bestKey = x, key
 		}
 	}
 	m[b] = best
@@ -608,7 +660,11 @@ func (fr *Frame) run(st *State, b *ssa.BasicBlock, stops []*ssa.BasicBlock) outc
 				stops2 = append(append(make([]*ssa.BasicBlock, 0, len(stops)+1), stops...), J)
 			}
 			fr.ifDepth[b]++
-			if fr.ifDepth[b] > in.unwind {
+			if st.visits == nil {
+				st.visits = map[*ssa.BasicBlock]int{}
+			}
+			st.visits[b]++
+			if fr.ifDepth[b] > in.unwind || st.visits[b] > in.unwind {
 				// unwinding bound reached on this path: ask whether continuing is feasible
 				res := "unknown"
 				if in.solverFeas != nil {
@@ -710,6 +766,9 @@ func (fr *Frame) execBlockBody(st *State, b *ssa.BasicBlock) bool {
 			return true
 		}
 		in.stats.instrs++
+		if in.stats.instrs&0x3ff == 0 {
+			in.checkBudget()
+		}
 		if !fr.exec(st, instr) {
 			return false
 		}
@@ -1162,22 +1221,73 @@ func slicePtr(c SliceVal, i int) Pointer {
 }
 
 func (fr *Frame) sliceOp(st *State, x *ssa.Slice) (Value, bool) {
+	// bounds may be multi-valued (e.g. len(dst)-1 of a multi-valued dst): distribute over their alternatives
+	var boundVals [3]Value
+	for i, v := range []ssa.Value{x.Low, x.High, x.Max} {
+		if v != nil {
+			boundVals[i] = fr.eval(st, v)
+		}
+	}
+	for i := range boundVals {
+		if ch, ok := boundVals[i].(*Choice); ok {
+			var bad []*Term
+			var out []Alt
+			for _, a := range ch.alts {
+				bv := boundVals
+				bv[i] = a.v
+				r, ok := fr.sliceOpWith(st, x, bv, a.g)
+				if !ok {
+					bad = append(bad, a.g)
+					continue
+				}
+				out = append(out, Alt{a.g, r})
+			}
+			if !fr.handleBad(st, bad, "slice bounds out of range", x) || len(out) == 0 {
+				return nil, false
+			}
+			res := out[len(out)-1].v
+			for k := len(out) - 2; k >= 0; k-- {
+				res = mergeValue(out[k].g, out[k].v, res)
+			}
+			return res, true
+		}
+	}
+	return fr.sliceOpWith(st, x, boundVals, tTrue)
+}
+
+// sliceOpWith: slice with concrete bounds; alternatives of a multi-valued base whose guard contradicts `under` are skipped
+func (fr *Frame) sliceOpWith(st *State, x *ssa.Slice, bounds [3]Value, under *Term) (Value, bool) {
 	in := fr.in
 	base := fr.eval(st, x.X)
-	geti := func(v ssa.Value) (int, bool) {
-		if v == nil {
+	if ch, ok := base.(*Choice); ok && under != tTrue {
+		var alts []Alt
+		for _, a := range ch.alts {
+			if g := And(under, a.g); g != tFalse {
+				alts = append(alts, Alt{a.g, a.v})
+			}
+		}
+		if len(alts) == 0 {
+			return nil, false
+		}
+		if len(alts) == 1 {
+			base = alts[0].v
+		} else {
+			base = &Choice{alts: alts}
+		}
+	}
+	geti := func(k int) (int, bool) {
+		if bounds[k] == nil {
 			return 0, false
 		}
-		iv := fr.eval(st, v)
-		i, ok := iv.(int64)
+		i, ok := bounds[k].(int64)
 		if !ok {
-			unsupported("slice bound %T at %s", iv, in.posOf(x))
+			unsupported("slice bound %T at %s", bounds[k], in.posOf(x))
 		}
 		return int(i), true
 	}
-	lo, hasLo := geti(x.Low)
-	hi, hasHi := geti(x.High)
-	mx, hasMax := geti(x.Max)
+	lo, hasLo := geti(0)
+	hi, hasHi := geti(1)
+	mx, hasMax := geti(2)
 	var bad []*Term
 	r := mapChoiceSkip(base, func(b Value) (Value, bool) {
 		switch c := b.(type) {
@@ -1929,6 +2039,8 @@ func (in *Interp) callFunction(st *State, fn *ssa.Function, args []Value, bindin
 	}
 	defer func() { in.callDepth-- }()
 	callerRegs := st.regs
+	callerVisits := st.visits
+	st.visits = nil
 	oldBase, oldPc := st.base, st.pc
 	st.base = And(oldBase, oldPc)
 	st.pc = tTrue
@@ -1939,7 +2051,7 @@ func (in *Interp) callFunction(st *State, fn *ssa.Function, args []Value, bindin
 	for i, fv := range fn.FreeVars {
 		st.regs[fv] = bindings[i]
 	}
-	fr := &Frame{in: in, fn: fn, ifDepth: map[*ssa.BasicBlock]int{}}
+	fr := &Frame{in: in, fn: fn, ifDepth: map[*ssa.BasicBlock]int{}, symVisits: map[*ssa.BasicBlock]int{}}
 	drops0 := in.drops
 	out := fr.run(st, fn.Blocks[0], nil)
 	if out.ret != nil && in.drops == drops0 {
@@ -1948,6 +2060,7 @@ func (in *Interp) callFunction(st *State, fn *ssa.Function, args []Value, bindin
 	}
 	_ = out.conts
 	st.base = oldBase
+	st.visits = callerVisits
 	if out.ret == nil {
 		st.pc = tFalse
 		st.regs = callerRegs
